@@ -193,7 +193,21 @@ def parser_state_writers():
                     if isinstance(x, ast.Attribute) and isinstance(x.value, ast.Name) and x.value.id == "self" and x.attr in PARSER_FIELDS:
                         got.setdefault(fn.name, set()).add(x.attr)
     ok = set(got) <= set(want)
-    return "only-the-parser-functions-write-parser-state", ok, f"writers: { {k: sorted(v) for k, v in got.items()} }"
+    # ... and the same for the mode flags (C15_vterm's MODES has only the flags the grid operations read): only these
+    # functions assign `self.modes.<flag>` or call `self.modes.reset()`
+    mode_writers = set()
+    for fn in cls.body:
+        if not isinstance(fn, ast.FunctionDef):
+            continue
+        for n in ast.walk(fn):
+            tgts = n.targets if isinstance(n, ast.Assign) else [n.target] if isinstance(n, (ast.AugAssign, ast.AnnAssign)) else []
+            for t in tgts:
+                if isinstance(t, ast.Attribute) and isinstance(t.value, ast.Attribute) and t.value.attr == "modes":
+                    mode_writers.add(fn.name)
+            if isinstance(n, ast.Call) and isinstance(n.func, ast.Attribute) and isinstance(n.func.value, ast.Attribute) and n.func.value.attr == "modes":
+                mode_writers.add(fn.name)
+    ok = ok and mode_writers <= {"set_mode", "parse_noncsi", "sgi_to_attrspec", "csi_set_attr", "reset"}
+    return "only-the-parser-functions-write-parser-state", ok, f"writers: { {k: sorted(v) for k, v in got.items()} }; mode writers: {sorted(mode_writers)}"
 
 
 def textops_xcheck():
@@ -988,25 +1002,37 @@ class parse_noncsi:
         yield from _noncsi_light(old, s, a, result)
         decaln, selcs, desig, plain, is_ = _noncsi_cases(old, a)
         LF = G.LF_FIELDS
-        yield "ESC-#-8-DECALN-fills-the-screen-with-E", implies(decaln, both(forall(0, old.height, lambda r: G.blank_row(s.term, r, old, old.width, b"E")), pframe(old, s, "term")))
-        yield "ESC-%-@-selects-the-default-charset-ESC-%-G-utf8", implies(selcs, both(
-            implies(is_(b"@"), s.modes.main_charset == 1), implies(either(is_(b"G"), is_(b"8")), s.modes.main_charset == 2),
-            implies(neg(either(is_(b"@"), TO.in_const(a.char, b"G8"))), s.modes.main_charset == old.modes.main_charset),
-            *[s.modes.fields[f] == old.modes.fields[f] for f in MODE_FLAGS], pframe(old, s, "modes")))
-        yield "ESC-(-and-)-designate-a-charset-and-nothing-else", implies(desig, pframe(old, s, "charset"))
-        yield "ESC-M-reverse-index", implies(both(plain, is_(b"M")), _state_is(old, s, G.M_lf(old, True), LF))
-        yield "ESC-D-index", implies(both(plain, is_(b"D")), _state_is(old, s, G.M_lf(old, False), LF))
-        yield "ESC-E-next-line", implies(both(plain, is_(b"E")), _state_is(old, s, G.M_lf(G.M_cr(old), False), LF))
-        col = old.term_cursor[0]
-        yield "ESC-H-sets-a-tab-stop-at-the-cursor-column", implies(both(plain, is_(b"H")), both(
-            tabstop_at(s, col), forall(0, old.width, lambda k: implies(k != col, tabstop_at(s, k) == tabstop_at(old, k))), pframe(old, s, "tabstops")))
-        yield "ESC-Z-only-replies", implies(both(plain, is_(b"Z")), pframe(old, s))
-        yield "ESC-7-saves-cursor-rendition-and-charset", implies(both(plain, is_(b"7")), both(
-            opt_eq(s.saved_cursor, old.term_cursor), neg(opt_isnone(s.saved_attrs)), pframe(old, s, "saved_cursor", "saved_attrs")))
-        m8 = G.M_set_cursor(old, *val(old.saved_cursor)) if not is_none_const(old.saved_cursor) and val(old.saved_cursor) is not None else old
-        yield "ESC-8-restores-the-saved-cursor", implies(both(plain, is_(b"8")), both(
-            implies(neg(opt_isnone(old.saved_cursor)), both(G.cursor_is(s, m8.term_cursor), opt_eq(s.cursor, m8.cursor))),
-            implies(opt_isnone(old.saved_cursor), pframe(old, s)), pframe(old, s, *CURSOR_FIELDS, "attrspec", "charset")))
+        # (one case per path: the `if`s are decided by the path condition of the branch the body took)
+        if decaln:
+            yield "ESC-#-8-DECALN-fills-the-screen-with-E", both(forall(0, old.height, lambda r: G.blank_row(s.term, r, old, old.width, b"E")), pframe(old, s, "term"))
+        elif selcs:
+            yield "ESC-%-@-selects-the-default-charset-ESC-%-G-utf8", both(
+                implies(is_(b"@"), s.modes.main_charset == 1), implies(either(is_(b"G"), is_(b"8")), s.modes.main_charset == 2),
+                implies(neg(either(is_(b"@"), TO.in_const(a.char, b"G8"))), s.modes.main_charset == old.modes.main_charset),
+                *[s.modes.fields[f] == old.modes.fields[f] for f in MODE_FLAGS], pframe(old, s, "modes"))
+        elif desig:
+            yield "ESC-(-and-)-designate-a-charset-and-nothing-else", pframe(old, s, "charset")
+        elif is_(b"M"):
+            yield "ESC-M-reverse-index", _state_is(old, s, G.M_lf(old, True), LF)
+        elif is_(b"D"):
+            yield "ESC-D-index", _state_is(old, s, G.M_lf(old, False), LF)
+        elif is_(b"E"):
+            yield "ESC-E-next-line", _state_is(old, s, G.M_lf(G.M_cr(old), False), LF)
+        elif is_(b"H"):
+            col = old.term_cursor[0]
+            yield "ESC-H-sets-a-tab-stop-at-the-cursor-column", both(
+                tabstop_at(s, col), forall(0, old.width, lambda k: implies(k != col, tabstop_at(s, k) == tabstop_at(old, k))), pframe(old, s, "tabstops"))
+        elif is_(b"Z"):
+            yield "ESC-Z-only-replies", pframe(old, s)
+        elif is_(b"7"):
+            yield "ESC-7-saves-cursor-rendition-and-charset", both(
+                opt_eq(s.saved_cursor, old.term_cursor), neg(opt_isnone(s.saved_attrs)), pframe(old, s, "saved_cursor", "saved_attrs"))
+        elif is_(b"8"):
+            if is_none(old.saved_cursor):
+                yield "ESC-8-without-a-saved-cursor-does-nothing", pframe(old, s)
+            else:
+                m8 = G.M_set_cursor(old, *val(old.saved_cursor))
+                yield "ESC-8-restores-the-saved-cursor", both(G.cursor_is(s, m8.term_cursor), opt_eq(s.cursor, m8.cursor), pframe(old, s, *CURSOR_FIELDS, "attrspec", "charset"))
 
     ensures_callee = staticmethod(_noncsi_light)
 
@@ -1162,7 +1188,8 @@ class parse_csi:
         n = _nlen(lst)
         yield "the-private-marker-is-a-leading-question-mark", qmark == TO.text_startswith(as_text(old.escbuf), b"?")
         yield "every-parameter-is-a-non-negative-int", forall(0, n, lambda j: both(neg(onone(pget(lst, j))), oval(pget(lst, j)) >= 0))
-        key = next((k for k in CSI_KEYS if beq(a.char, k)), None)  # (forks over the keys; exactly one matches by `requires`)
+        key = next(k for k, v in _vt.CSI_COMMANDS.items() if v is loc["cmd_"])  # the table entry the body selected on this path
+        yield "the-entry-is-the-one-of-the-final-byte", beq(a.char, key)
         entry = _vt.CSI_COMMANDS[key]
         if isinstance(entry, _vt.CSIAlias):
             key = entry.alias
@@ -1388,9 +1415,10 @@ def encode_replace(ip, st, recv, name, args, kwargs):
     """Contract hook (builtins_model.call_method): `<str>.encode(<target encoding>, "replace")`.
     ASSUMED about the runtime: for the codec named by util._target_encoding, str.encode with the "replace" error
     handler returns bytes and does not raise (unencodable characters become b"?").  True of every text codec of the
-    standard library (cross-check `replace-encoding-never-raises` over all codecs set_encoding knows about and every
-    standard alias); NOT true of a few non-text codecs ("idna", "punycode": UnicodeError for any error handler but
-    "strict") -- an application that calls util.set_encoding() with one of those is outside this contract.
+    standard library (cross-check `replace-encoding-never-raises` over every standard codec name that set_encoding
+    accepts); NOT true of the one non-text codec it accepts, "idna" (UnicodeError "unsupported error handling" for
+    every handler but "strict") -- an application that calls util.set_encoding("idna") is outside this contract
+    (reported as a boundary of the claim, see the final report of this branch).
     The result is a fresh bytes text of unknown length and content, tagged `encoded_from`."""
     if name == "encode" and recv.kind == "str" and len(args) == 2 and not kwargs and isinstance(args[0], SOpaque) and args[0].kind == "Encoding" and args[1] == "replace":
         t = BYTES.fresh(st, "encoded")
@@ -1402,7 +1430,8 @@ def encode_replace(ip, st, recv, name, args, kwargs):
 def replace_encoding_xcheck():
     import encodings.aliases
 
-    names = sorted(set(encodings.aliases.aliases.values()) | {"utf8", "ascii", "euc-jp", "euc-kr", "gb2312", "gbk", "big5", "latin-1", "cp437", "koi8-r", "utf-16", "utf-32"})
+    names = sorted(set(encodings.aliases.aliases.values()) | {"utf8", "ascii", "euc-jp", "euc-kr", "gb2312", "gbk", "big5", "latin-1", "cp437", "koi8-r", "utf-16", "utf-32",
+                                                             "idna", "punycode", "raw_unicode_escape", "unicode_escape", "utf_8_sig", "utf-7"})
     samples = ["a", "é", "中", "\U0001f600", "\ud800", "\x00", "a中é￿", "́"]
     bad, n, skipped = [], 0, []
     for name in names:
@@ -1421,7 +1450,7 @@ def replace_encoding_xcheck():
                 bad.append((name, smp, type(e).__name__))
     non_text = {b[0] for b in bad}
     # the documented exceptions: codecs that are not character encodings
-    ok = non_text <= {"idna", "punycode", "undefined", "rot_13", "base64_codec", "bz2_codec", "hex_codec", "quopri_codec", "uu_codec", "zlib_codec"}
+    ok = non_text <= {"idna"}
     return "replace-encoding-never-raises", ok and n > 500, f"{n} (codec, text) pairs; codecs outside the assumption: {sorted(non_text)}; not accepted by set_encoding: {len(skipped)}"
 
 
@@ -1480,6 +1509,17 @@ class addbyte:
                     dec is not None, src is not None, getattr(dec, "decode_errors", None) == "ignore", src is not None and bytes_same(src, tcat(buf_text(old), TO.bytes_of_ints(cur(), [b]))))
             else:
                 yield "an-undecodable-sequence-is-dropped", pframe(old, s, "utf8_eat_bytes")
+            # valid UTF-8: the collected bytes plus this one form exactly one well-formed sequence -> exactly that character
+            from pyvc.text import char_ord
+
+            nb = tlen(buf_text(old))
+            for n in (2, 3, 4):
+                wf, cp = TO.utf8_scalar([tget(buf_text(old), j) for j in range(n - 1)] + [b], n)
+                got = False
+                if len(evs) == 1 and getattr(evs[0][1], "encoded_from", None) is not None:
+                    dec = evs[0][1].encoded_from
+                    got = both(tlen(dec) == 1, char_ord(dec.get(0)) == cp)
+                yield f"a-well-formed-{n}-byte-sequence-produces-its-character", implies(both(nb == n - 1, wf), got)
         else:
             # an ASCII byte, or a continuation byte out of place: a pending sequence is abandoned (resynchronisation)
             yield "any-other-byte-abandons-a-pending-sequence-and-is-a-character", both(onone(s.utf8_eat_bytes), one_byte(), psame("utf8_buffer", s.utf8_buffer, old.utf8_buffer))
